@@ -163,3 +163,20 @@ def leaves(chk, F, rule, cfg):
     for p in symex.Interp(F).run(ml):
         r = strip(p.outcome[1])
         chk.ob(rule, '&mut leaves hold no configured value (answers only)', r[0] == 'agg' and r[3] == 'None', config=cfg, fn=ml, site='mutlent', what='MutLent::output %s' % show(r)[:60])
+
+
+def conversion_flavour(chk, F, rule, cfg):
+    """the multi-use conversion of a composite converts its parts with the multi-use conversion (never the single-use one)"""
+    n = 0
+    for fn in F.fns.values():
+        if fn.name != 'into_return' or not re.search(r'^output::(deep|shallow)::', fn.defp):
+            continue
+        for b in [fn] + F.closures_of(fn):
+            for bb, t in b.calls(include_cleanup=True):
+                nm = symex.callee_name(t)
+                if re.search(r'IntoReturn(Once)?::into_return(_once)?$', nm):
+                    n += 1
+                    ok = nm.endswith('IntoReturn::into_return')
+                    chk.ob(rule, 'multi-use conversion of a composite converts every part with the multi-use (cloning) conversion', ok, config=cfg, fn=b, site='part-conversion', what='%s uses %s for a part' % (fn.defp[:70], nm.rsplit('::', 1)[-1]),
+                           found=nm, expected='output::IntoReturn::into_return')
+    chk.floor(rule, 'part conversions inside multi-use composite conversions', n, 8, config=cfg)
